@@ -293,13 +293,36 @@ func init() { generators = append(generators, genConnsCount) }
 // simulator yield right before that add, so that whatever a variant of the
 // code does between looking at the counter and updating it is interleaved
 // with the other requests.
+//
+// The counting code has had two shapes: "add, look at the sum, take the add back
+// if it is too much" (until the compare-and-swap fix) and "load, compare, swap".
+// Whichever of them the tree has gets its yields: before the add and before
+// the taking back (where the counter shows more than max_conns), or before
+// the load. The seam counts as applied if any of the patterns was found.
 func genConnsCount(repo, out string, m map[string]string) error {
-	if err := rewriteFile(repo, out, m, "connscount", "caskethttp/proxy/proxy.go", []repl{
-		{old: "atomic.AddInt64(&host.Conns, 1)", new: "verifConnsAdd(&host.Conns, 1)"}}); err != nil {
-		return err
+	rel := "caskethttp/proxy/proxy.go"
+	b, err := os.ReadFile(filepath.Join(repo, rel))
+	if err != nil {
+		applied["connscount"] = false
+		return nil
 	}
-	if !applied["connscount"] {
-		delete(m, filepath.Join(repo, "caskethttp/proxy/proxy.go"))
+	s := string(b)
+	any := false
+	for _, r := range []repl{
+		{old: "atomic.AddInt64(&host.Conns, -1)\n\t\t\tbackendErr = errors.New(\"upstream host has reached max_conns\")", new: "verifYield()\n\t\t\tatomic.AddInt64(&host.Conns, -1)\n\t\t\tbackendErr = errors.New(\"upstream host has reached max_conns\")"},
+		{old: "atomic.AddInt64(&host.Conns, 1)", new: "verifConnsAdd(&host.Conns, 1)"},
+		{old: "n := atomic.LoadInt64(&host.Conns)", new: "n := verifConnsLoad(&host.Conns)"},
+	} {
+		if strings.Contains(s, r.old) {
+			s = strings.Replace(s, r.old, r.new, -1)
+			any = true
+		}
+	}
+	applied["connscount"] = any
+	if any {
+		if err := write(out, strings.ReplaceAll(rel, "/", "__"), s, m, filepath.Join(repo, rel)); err != nil {
+			return err
+		}
 	}
 	return shim(repo, out, m, "caskethttp/proxy/zz_verif_count.go", `//go:build verif
 
@@ -310,11 +333,20 @@ import "sync/atomic"
 // VerifBeforeCount, when set, runs right before a request is counted against its backend.
 var VerifBeforeCount func()
 
-func verifConnsAdd(p *int64, d int64) int64 {
+func verifYield() {
 	if VerifBeforeCount != nil {
 		VerifBeforeCount()
 	}
+}
+
+func verifConnsAdd(p *int64, d int64) int64 {
+	verifYield()
 	return atomic.AddInt64(p, d)
+}
+
+func verifConnsLoad(p *int64) int64 {
+	verifYield()
+	return atomic.LoadInt64(p)
 }
 `)
 }
